@@ -263,6 +263,14 @@ def execute(program, ch: Chooser) -> Result:  # noqa: C901, PLR0912, PLR0915
             class Mixed[T](State):  # one parameter forwarded, one bound
                 p: Pair[T, int]
 
+            class Single[T](State):
+                value: T
+
+            class Shelf[T](State):  # a ONE-parameter generic referenced through the host's variable
+                box: Single[T]
+                maybe: Single[T] | None = None
+                many: cabc.Sequence[Single[T]] = ()
+
             good = Pair[int, str](first=1, second="a")
             swapped = Pair[str, int](first="a", second=1)
             steps += 2
@@ -273,6 +281,21 @@ def execute(program, ch: Chooser) -> Result:  # noqa: C901, PLR0912, PLR0915
                 stats["accepted"] += 1
             except Exception as exc:  # noqa: BLE001
                 viols.append(viol("accepts-conforming", "arg/pair-typevars", "succeeds", f"{type(exc).__name__}: {exc}"[:160]))
+            try:
+                one = Single[int](value=1)
+                sh = Shelf[int](box=one, maybe=Single[int](value=2), many=[Single[int](value=3)])
+                if sh.box is not one:
+                    viols.append(viol("faithful", "arg/single-typevar", "same instance", "other"))
+                stats["accepted"] += 1
+            except Exception as exc:  # noqa: BLE001
+                viols.append(viol("accepts-conforming", "arg/single-typevar", "Shelf[int](box=Single[int](..)) succeeds", f"{type(exc).__name__}: {exc}"[:160]))
+            for bad_kw in ({"box": Single[str](value="a")}, {"box": Single[int](value=1), "maybe": Single[str](value="a")}, {"box": Single[int](value=1), "many": [Single[str](value="a")]}):
+                steps += 1
+                try:
+                    Shelf[int](**bad_kw)
+                    viols.append(viol("rejects-nonconforming", "arg/single-typevar", "raises", f"accepted Single[str] for Single[int] in {sorted(bad_kw)}"))
+                except Exception:  # noqa: BLE001
+                    stats["rejected"] += 1
             try:
                 mixed_ok = Pair[str, int](first="a", second=1)
                 m = Mixed[str](p=mixed_ok)
